@@ -130,17 +130,38 @@ func canonJSON(v any) string {
 
 func c14World(tp *Tape, env *Env) (*Plan, *Violation) {
 	if tp.Bool("runnerpart") {
+		if tp.Chance(25, "looprunner") {
+			return c14Loop(tp, env)
+		}
 		return c14Runner(tp, env)
 	}
 	n := tp.Int(2, 12, "nlines")
+	long := tp.Chance(6, "longhistory")
+	if long {
+		n = tp.Int(33, 160, "nlineslong") // more lines than any small table of recent results holds
+	}
 	var lines []string
 	nfail := 0
 	for i := 0; i < n; i++ {
+		if i > 0 && tp.Chance(20, "repeat") {
+			// the very same input again, later in the history (the first line more often than others)
+			k := 0
+			if !tp.Chance(40, "repeatfirst") {
+				k = tp.Int(0, len(lines)-1, "repeatidx")
+			}
+			lines = append(lines, lines[k])
+			env.St.probe("history_repeats_an_earlier_line")
+			continue
+		}
 		l, f := genMarkupLineAt(tp, fmt.Sprintf("M%d", i), true, tp.Chance(40, "idlast"))
 		lines = append(lines, l)
 		if f {
 			nfail++
 		}
+	}
+	if long {
+		lines = append(lines, lines[0], lines[1], lines[len(lines)/2])
+		env.St.probe("history_over_32_lines_then_the_first_again")
 	}
 	plan := &Plan{Harness: 1, Property: "C14", Extra: map[string]any{"lines": lines}}
 	env.St.sample(map[string]any{"parser_history": lines})
@@ -214,6 +235,85 @@ func c14Runner(tp *Tape, env *Env) (*Plan, *Violation) {
 	env.St.sample(map[string]any{"script": sb.String()})
 	journal(plan)
 	return plan, c14RunnerExec(plan, env.St)
+}
+
+// c14Loop: a hub node shown again and again by one runner. Its first lines are the same text every
+// round; the filler lines between them change with a counter, so the runner's parser sees many
+// distinct inputs between two showings of the same line.
+func c14Loop(tp *Tape, env *Env) (*Plan, *Violation) {
+	ns := tp.Int(1, 3, "nshared")
+	nf := tp.Int(1, 8, "nfiller")
+	rounds := tp.Int(2, 12, "rounds")
+	if tp.Chance(25, "longloop") {
+		nf, rounds = tp.Int(6, 12, "nfillerlong"), tp.Int(6, 14, "roundslong")
+	}
+	var sb strings.Builder
+	sb.WriteString("title: Start\n---\n<<declare $n = 0>>\n<<jump Hub>>\n===\ntitle: Hub\n---\n")
+	for i := 0; i < ns; i++ {
+		l, _ := genMarkupLine(tp, fmt.Sprintf("SH%d", i), tp.Chance(30, "sharedmayfail"))
+		sb.WriteString(l + "\n")
+	}
+	sb.WriteString("<<set $n += 1>>\n")
+	for i := 0; i < nf; i++ {
+		l, _ := genMarkupLine(tp, fmt.Sprintf("P%d", i), tp.Chance(20, "fillermayfail"))
+		sb.WriteString(l + " {$n}\n")
+	}
+	fmt.Fprintf(&sb, "<<if $n < %d>>\n    <<jump Hub>>\n<<endif>>\n===\n", rounds)
+	w := World{Readers: []ReaderSpec{{Text: sb.String()}}, Host: HostSpec{Storer: "default", Seed: "s1"}}
+	plan := &Plan{Harness: 1, Property: "C14", World: w, Extra: map[string]any{"loop": true, "shared": ns, "filler": nf, "rounds": rounds}}
+	env.St.sample(map[string]any{"script": sb.String()})
+	journal(plan)
+	return plan, c14LoopExec(plan, env.St)
+}
+
+func c14LoopExec(plan *Plan, st *Stats) *Violation {
+	ns, nf, rounds := extraInt(plan, "shared", 1), extraInt(plan, "filler", 1), extraInt(plan, "rounds", 2)
+	h, pv := newHost(&plan.World)
+	if pv != nil || h.loadErr != nil {
+		if st != nil {
+			st.inc("scripts_not_loaded", 1)
+		}
+		return nil
+	}
+	first := make([]string, ns)
+	attrs, distinctInputs := 0, 0
+	for step := 0; step < rounds*(ns+nf); step++ {
+		r, el := h.NextEl(0)
+		if r.Kind == rEnd || r.Kind == rPanic || r.Kind == rOptions {
+			return nil // the markup produced something that changes the flow: not comparable position by position
+		}
+		idx, round := step%(ns+nf), step/(ns+nf)
+		if idx >= ns {
+			if r.Kind == rLine {
+				distinctInputs++
+			}
+			continue
+		}
+		c := "error"
+		if r.Kind == rLine {
+			if sharedID(r.Text) != fmt.Sprintf("SH%d", idx) {
+				return nil
+			}
+			c = canonJSON(parseCanon{Text: el.Line.Text, Attrs: el.Line.Attributes})
+			attrs += len(el.Line.Attributes)
+		}
+		if round == 0 {
+			first[idx] = c
+		} else if first[idx] != c {
+			return &Violation{Clause: "C14.runner-history", OpIndex: step, Expected: first[idx], Observed: c, Note: fmt.Sprintf("line SH%d shown in round %d (after %d other lines) differs from its first showing", idx, round, step-idx)}
+		}
+	}
+	if st != nil {
+		st.inc("cases", 1)
+		st.inc("dialogue_paths", 1)
+		if distinctInputs >= 32 {
+			st.probe("same_line_shown_again_after_32_other_inputs")
+		}
+		if attrs >= 2 {
+			st.distinct("nontrivial", hashStr(string(plan.World.Readers[0].bytes())))
+		}
+	}
+	return nil
 }
 
 func c14RunnerExec(plan *Plan, st *Stats) *Violation {
@@ -312,6 +412,9 @@ func sharedID(text string) string {
 func c14Replay(plan *Plan) *Violation {
 	if lines, ok := decodeExtra[[]string](plan, "lines"); ok {
 		return c14ParserExec(lines, nil)
+	}
+	if b, _ := plan.Extra["loop"].(bool); b {
+		return c14LoopExec(plan, nil)
 	}
 	return c14RunnerExec(plan, nil)
 }
